@@ -15,8 +15,8 @@ OUTSIDE = ["operations that make a dependency path start or stop resolving (atta
            "covers paths resolving both before and after, so no call count is asserted there", "paths deeper than 2",
            "more than 3 + 2 pool objects"]
 ASSUMPTIONS = ["leaf values symbolic unbounded ints"]
-VARIANTS = [('a.x',), ('a.x', 'a.y'), ('a.x', 'a.b.x'), ('a.param',)]
-N_OPS = 6
+VARIANTS = [('a.x',), ('a.x', 'a.y'), ('a.x', 'a.b.x'), ('a.param',), ('a.x', 'c.y')]
+N_OPS = 7
 
 
 class Node(param.Parameterized):
@@ -28,6 +28,7 @@ class Node(param.Parameterized):
 def _mk_top(deps):
     class Top(param.Parameterized):
         a = param.ClassSelector(class_=Node, default=None)
+        c = param.ClassSelector(class_=Node, default=None)
 
         def __init__(self, **kw):
             self.calls = 0
@@ -52,7 +53,8 @@ def prog(variant: int, k: int, nm: int, o1: int, i1: int, v1: int, o2: int, i2: 
         mids = [Node(name='cfg'), Node(name='cfg'), Node(name='cfg')]
         leaves = [Node(name='leaf'), Node(name='leaf')]
         t = Top(a=mids[0])
-    cur = 0                       # index of the attached mid, or None
+    cur = 0                       # index of the mid attached at t.a, or None
+    curc = None                   # index of the mid attached at the second root t.c, or None
     sub = [None, None, None]      # index of the leaf attached at mids[i].b
     mv = [[0, 0], [0, 0], [0, 0]]
     lv = [[0, 0], [0, 0]]
@@ -61,7 +63,9 @@ def prog(variant: int, k: int, nm: int, o1: int, i1: int, v1: int, o2: int, i2: 
         """per dependency: (resolves?, value)"""
         out = []
         for d in deps:
-            if cur is None:
+            if d == 'c.y':
+                out.append((True, mv[curc][1]) if curc is not None else (False, None))
+            elif cur is None:
                 out.append((False, None))
             elif d == 'a.x':
                 out.append((True, mv[cur][0]))
@@ -94,7 +98,11 @@ def prog(variant: int, k: int, nm: int, o1: int, i1: int, v1: int, o2: int, i2: 
             else:
                 mids[i].y = v
                 mv[i][1] = v
-            on_path = (cur == i)
+            on_path = (cur == i) or (curc == i)
+        elif o == 6:    # attach / replace / detach at the second root
+            i = pick(i, 0, nm)
+            t.c = mids[i] if i < nm else None
+            curc = i if i < nm else None
         elif o == 4:    # attach / replace at depth 2
             i = pick(i, 0, nm - 1)
             j = pick(v, 0, 2)
@@ -128,7 +136,7 @@ def prog(variant: int, k: int, nm: int, o1: int, i1: int, v1: int, o2: int, i2: 
         attached_mid = cur
         attached_leaf = sub[cur] if cur is not None else None
         for idx, mobj in enumerate(mids):
-            if idx != attached_mid:
+            if idx != attached_mid and not ('c.y' in deps and idx == curc):
                 check('C07.no_stale_watchers', _nwatchers(mobj) == 0, dict(info, obj='mid%d' % idx, n=_nwatchers(mobj)))
         for idx, lobj in enumerate(leaves):
             if idx != attached_leaf or 'a.b.x' not in deps:
@@ -139,8 +147,8 @@ def prog(variant: int, k: int, nm: int, o1: int, i1: int, v1: int, o2: int, i2: 
 def _ranges(consts):
     r = {}
     for n in (1, 2, 3, 4):
-        r['o%d' % n] = (0, N_OPS - 1)
-        r['i%d' % n] = (0, consts['nm'] - 1)
+        r['o%d' % n] = (0, N_OPS - 1 if consts['variant'] == 4 else N_OPS - 2)
+        r['i%d' % n] = (0, consts['nm'])
     return r
 
 
@@ -152,8 +160,9 @@ def shards(tier):
     q = tier == 'quick'
     k = 3 if q else 4
     for variant in range(len(VARIANTS)):
-        for o1 in range(N_OPS):
-            for o2 in range(N_OPS):
+        nops = N_OPS if variant == 4 else N_OPS - 1
+        for o1 in range(nops):
+            for o2 in range(nops):
                 c = dict(variant=variant, k=k, o1=o1, o2=o2, nm=2 if q else 3)
                 if k < 4:
                     c.update(o4=0, i4=0, v4=0)
@@ -164,4 +173,4 @@ def shards(tier):
 
 def bounds(tier):
     return dict(program_length=3 if tier == 'quick' else 4, dependency_sets=[list(v) for v in VARIANTS], mid_pool=2 if tier == 'quick' else 3, leaf_pool=2,
-                opcodes=['attach mid i', 'detach', 'set x on mid i', 'set y on mid i', 'attach leaf j (or None) under mid i', 'set x on leaf j'])
+                opcodes=['attach mid i', 'detach', 'set x on mid i', 'set y on mid i', 'attach leaf j (or None) under mid i', 'set x on leaf j', 'attach mid i (or None) at the second root c'])
